@@ -504,3 +504,106 @@ theorem Rel.fill_more {r : Reader} {pos : Nat} {bom : Bom} {d : Bytes} (h : Rel 
   · right; simp only [h3, List.length_append, hl, List.length_drop]; omega
 
 end Jomini.TextReader
+
+namespace Jomini.TextReader
+open Jomini Jomini.TextReader.Spec
+
+/-! ### continuing inside a quoted scalar across refills -/
+
+theorem run_quote (n : Nat) : ∀ (r : Reader) (pos : Nat) (bom : Bom) (d junk a : Bytes) (off fuel : Nat),
+    r.src.rest.length ≤ n → Rel r pos bom d → r.win = junk ++ a → off ≤ a.length →
+    quoteEnd a 0 = none →
+    (∀ x, quoteEnd (a ++ x) 0 = quoteEnd ((a ++ x).drop off) off) →
+    2 * r.src.rest.length + 2 ≤ fuel →
+    match quoteEnd (a ++ r.src.rest) 0 with
+    | some m => ∃ r', run fuel (.refill .quote a.length off) r = .ok r' (some (.quoted ((a ++ r.src.rest).take m))) ∧
+        Rel r' (pos + junk.length + (m + 1)) bom ((a ++ r.src.rest).drop (m + 1))
+    | none => ∃ r', run fuel (.refill .quote a.length off) r = .err r' .eof ∧ r'.position = pos + junk.length := by
+  induction n with
+  | zero =>
+    intro r pos bom d junk a off fuel hn hrel hwin hoff hnone hres hfuel
+    have he : r.src.rest = [] := List.eq_nil_of_length_eq_zero (by omega)
+    obtain ⟨f, rfl⟩ : ∃ f, fuel = f + 1 := ⟨fuel - 1, by omega⟩
+    obtain ⟨r0, hadv, hrel0, hwin0, hsrc0, _⟩ := hrel.advance junk.length (by simp [hwin])
+    have hrest0 : r0.src.rest = [] := by rw [hsrc0]; exact he
+    obtain ⟨r1, hfill, hrel1, hwin1, _⟩ := hrel0.fill_end hrest0
+    simp only [he, List.append_nil, hnone]
+    refine ⟨r1, ?_, hrel1.pos⟩
+    rw [run]
+    have e : r.win.length - a.length = junk.length := by simp [hwin]
+    simp only [e, hadv]
+    have : ¬ a.length > r.win.length := by simp [hwin]
+    simp only [this, if_false, hfill]
+  | succ n ih =>
+    intro r pos bom d junk a off fuel hn hrel hwin hoff hnone hres hfuel
+    obtain ⟨f, rfl⟩ : ∃ f, fuel = f + 1 := ⟨fuel - 1, by omega⟩
+    obtain ⟨r0, hadv, hrel0, hwin0, hsrc0, _⟩ := hrel.advance junk.length (by simp [hwin])
+    have e : r.win.length - a.length = junk.length := by simp [hwin]
+    have hgt : ¬ a.length > r.win.length := by simp [hwin]
+    have hwin0' : r0.win = a := by rw [hwin0, hwin]; simp
+    by_cases he : r.src.rest = []
+    · have hrest0 : r0.src.rest = [] := by rw [hsrc0]; exact he
+      obtain ⟨r1, hfill, hrel1, hwin1, _⟩ := hrel0.fill_end hrest0
+      simp only [he, List.append_nil, hnone]
+      refine ⟨r1, ?_, hrel1.pos⟩
+      rw [run]
+      simp only [e, hadv, hgt, if_false, hfill]
+    · have hrest0 : r0.src.rest ≠ [] := by rw [hsrc0]; exact he
+      obtain ⟨r1, k, hfill, hrel1, hk, hwin1, hrest1⟩ := hrel0.fill_more hrest0
+      rw [hsrc0] at hk hwin1 hrest1
+      rw [hwin0'] at hwin1
+      -- the data seen so far and the rest
+      generalize hnew : r.src.rest.take (k + 1) = new at hwin1
+      have hsplit : r.src.rest = new ++ r1.src.rest := by rw [hrest1, ← hnew]; simp
+      have hd1 : a ++ r.src.rest = (a ++ new) ++ r1.src.rest := by rw [hsplit]; simp
+      have hlen1 : r1.src.rest.length ≤ n := by rw [hrest1]; simp; omega
+      have hrun : run (f + 1) (.refill .quote a.length off) r =
+          match quoteRescan r1.win.length (r1.win.drop off) off with
+          | .closed m =>
+            match advance r1 (m + 1) with
+            | some r2 => .ok r2 (some (.quoted (r1.win.take m)))
+            | none => .panic
+          | .more c o => run f (.refill .quote c o) r1 := by
+        rw [run]
+        simp only [e, hadv, hgt, if_false, hfill]
+        rfl
+      rw [hrun, hwin1]
+      have hoff' : off ≤ (a ++ new).length := by simp; omega
+      have hlenL : (a ++ new).length = off + ((a ++ new).drop off).length := by simp; omega
+      cases hq : quoteRescan (a ++ new).length ((a ++ new).drop off) off with
+      | closed m =>
+        have e1 : quoteEnd (a ++ new) 0 = some m := by rw [hres new]; exact quoteRescan_closed hq
+        have hb := quoteEnd_bounds e1
+        have e2 : quoteEnd (a ++ r.src.rest) 0 = some m := by rw [hd1]; exact quoteEnd_append _ e1
+        simp only [e2]
+        obtain ⟨r2, hadv2, hrel2, _, _, _⟩ := hrel1.advance (m + 1) (by rw [hwin1]; simp at hb ⊢; omega)
+        refine ⟨r2, ?_, ?_⟩
+        · simp only [hadv2]
+          have ht : ((a ++ new) ++ r1.src.rest).take m = (a ++ new).take m :=
+            List.take_append_of_le_length (by simp at hb ⊢; omega)
+          rw [hd1, ht]
+        · have hdd : (junk ++ a ++ r.src.rest).drop junk.length = a ++ r.src.rest := by simp
+          have hdata : d = junk ++ a ++ r.src.rest := by rw [← hrel.data, hwin]
+          rw [hdata, hdd] at hrel2
+          have : pos + junk.length + (m + 1) = pos + junk.length + (m + 1) := rfl
+          exact hrel2
+      | more c o =>
+        obtain ⟨h1, h2, h3, h4, h5⟩ := quoteRescan_more hlenL hq
+        subst h2
+        have hnone' : quoteEnd (a ++ new) 0 = none := by rw [hres new]; exact h1
+        have hres' : ∀ x, quoteEnd ((a ++ new) ++ x) 0 = quoteEnd (((a ++ new) ++ x).drop o) o := by
+          intro x
+          have := hres (new ++ x)
+          rw [← List.append_assoc] at this
+          rw [this]
+          have := h5 x
+          rw [← List.drop_append_of_le_length hoff'] at this
+          rw [this, List.drop_drop]
+          congr 2; omega
+        have hdata1 : r1.win = [] ++ (a ++ new) := by simp [hwin1]
+        have hl1 : r1.src.rest.length + (k + 1) = r.src.rest.length := by rw [hrest1]; simp; omega
+        have := ih r1 (pos + junk.length) bom _ [] (a ++ new) o f hlen1 hrel1 hdata1 h4 hnone' hres' (by omega)
+        rw [← hd1] at this
+        simpa using this
+
+end Jomini.TextReader
